@@ -12,7 +12,8 @@ PROP = "C18"
 RUNNER = ("RunC18", "run_C18")
 COQ_TARGETS = ["theories/RunC18.vo"]
 SHARD = 120
-AUTHORITY = ("C18_refuses_* / C18_domain (coq/props/C18.v) for the writer model; the comparator same_problem checks "
+AUTHORITY = ("C18_load_write (coq/props/C18.v): load (write I) is the same problem as I for every well-formed linear I; "
+             "C18_refuses_* / C18_domain for the writer model; the comparator same_problem checks "
              "sense, objective, per-ID (equality kind, function) and the value domains of the used variables against "
              "the original instance, for SDK-write->SDK-read, model-write->SDK-read, SDK-write->model-read, "
              "model-write->model-read")
@@ -28,8 +29,7 @@ ASSUMPTIONS = ["coefficients, constants and bounds are small dyadic rationals or
                "out of scope by the property's wording and not generated: variables used only with zero coefficients, "
                "(a variable whose repeated terms cancel to 0 everywhere is not written and is left out of the domain comparison), binary variables with a bound outside [0,1], "
                "semi-continuous / semi-integer kinds, unspecified sense or equality"]
-PLANNED = ["C18_roundtrip (Tier B): load (write I) is the same problem as I for every well-formed linear I, as a theorem "
-           "(needs the decimal print/parse and tokeniser round trips); today it is checked per generated case inside Coq"]
+PLANNED = []   # C18_load_write (Tier B) is proved: coq/theories/MpsWriteRoundTrip.v
 PER_CASE_TIMEOUT = 20.0
 
 
